@@ -23,6 +23,8 @@ type Tracer struct {
 	Mem   []Ev // in-memory copy when Keep is set
 	Keep  bool
 	Trace int // current trace id
+	// AutoFlush writes every event through at once (drivers that may be killed by a panic of the code under test)
+	AutoFlush bool
 }
 
 func NewTracer(path string) (*Tracer, error) {
@@ -49,6 +51,9 @@ func (t *Tracer) Emit(e Ev) {
 		if err == nil {
 			t.w.Write(b)
 			t.w.WriteByte('\n')
+			if t.AutoFlush {
+				t.w.Flush()
+			}
 		}
 	}
 	if t.Keep {
